@@ -175,7 +175,28 @@ def sc_recv_notconn(w):
     return [code(c.recv, 10)]
 
 
-SOCKET_SCENARIOS = [sc_refused, sc_connect_accept, sc_accept_empty, sc_recv_empty, sc_eof_after_close, sc_reset_with_unread,
+def sc_shutdown_after_reset(w):
+    l, c, s, ca = connected_pair(w)
+    s.send(b"unread")
+    w.settle()
+    c.close()          # closing with unread data aborts the connection: the server side receives an RST
+    w.settle()
+    return [code(s.shutdown, real_socket.SHUT_RDWR), code(s.shutdown, real_socket.SHUT_RDWR)]
+
+
+def sc_shutdown_after_fin(w):
+    l, c, s, ca = connected_pair(w)
+    c.close()
+    w.settle()
+    return [code(s.shutdown, real_socket.SHUT_RDWR), code(s.shutdown, real_socket.SHUT_RDWR)]
+
+
+def sc_shutdown_healthy_twice(w):
+    l, c, s, ca = connected_pair(w)
+    return [code(s.shutdown, real_socket.SHUT_RDWR), code(s.shutdown, real_socket.SHUT_RDWR)]
+
+
+SOCKET_SCENARIOS = [sc_shutdown_after_reset, sc_shutdown_after_fin, sc_shutdown_healthy_twice, sc_refused, sc_connect_accept, sc_accept_empty, sc_recv_empty, sc_eof_after_close, sc_reset_with_unread,
                     sc_send_after_peer_closed, sc_fill_buffer, sc_recv_notconn]
 
 
